@@ -79,3 +79,43 @@ def build(repo):
                ensures=[])
     D.verify_list = ['solve', 'Controller.__init__', 'Controller.reduce_rho', 'Controller.check_and_fix_geometry', 'Controller.soft_restart', 'solve_main']
     return D
+
+
+def extra_obligations(repo, D, pid):
+    """C18 "within one run rho never increases (unless the documented reset at the end of the growing phase is enabled)": rho is written only by the three Controller
+    methods under contract here (__init__, reduce_rho: proved non-increasing, soft_restart: a restart) and by ONE statement of the main loop, which must sit directly under
+    `if params("growing.reset_rho"):` inside the block that runs once when the growing phase ends (`finished_growing = True`).  Syntactic, whole package."""
+    import ast, z3
+    from pyvc.core import Ob
+    out = []
+    allowed = {'Controller.__init__', 'Controller.reduce_rho', 'Controller.soft_restart'}
+    for qual, f in sorted(repo.funcs.items()):
+        if f.module == 'hessian':
+            continue
+        parents = {}
+        for n in ast.walk(f.node):
+            for c in ast.iter_child_nodes(n):
+                parents[id(c)] = n
+        k = 0
+        for n in sorted([x for x in ast.walk(f.node) if isinstance(x, (ast.Assign, ast.AugAssign))], key=lambda x: x.lineno):
+            tg = n.targets if isinstance(n, ast.Assign) else [n.target]
+            tg = [y for t in tg for y in (t.elts if isinstance(t, (ast.Tuple, ast.List)) else [t])]
+            if not any(isinstance(t, ast.Attribute) and t.attr == 'rho' for t in tg):
+                continue
+            k += 1
+            if qual in allowed:
+                continue
+            ok, why = False, 'write to .rho outside the Controller methods under contract'
+            p, child = parents.get(id(n)), n
+            if isinstance(p, ast.If) and child in p.body and ast.unparse(p.test) in ("params('growing.reset_rho')", 'params("growing.reset_rho")') \
+                    and isinstance(n, ast.Assign) and ast.unparse(n.value) == 'rhobeg':
+                gp = parents.get(id(p))
+                if isinstance(gp, ast.If) and p in gp.body and any(isinstance(s, ast.Assign) and ast.unparse(s) == 'finished_growing = True' for s in gp.body):
+                    ok, why = True, ''
+                else:
+                    why = 'the reset is not inside the end-of-growing block'
+            else:
+                why = 'the write is not `control.rho = rhobeg` directly under `if params("growing.reset_rho")` (found under: %s)' % (ast.unparse(p.test) if isinstance(p, ast.If) else type(p).__name__)
+            out.append(Ob('%s/frame[write #%d to .rho is the documented reset: under growing.reset_rho, once, when the growing phase ends]' % (qual, k), 'frame', qual, ['C18'], [],
+                          z3.BoolVal(ok), n.lineno, 'unsat', {'syntactic': True, 'why': why}))
+    return out
